@@ -1,1 +1,1 @@
-fn main() {}
+fn main() { e3_rust::check7::main() }
